@@ -160,6 +160,9 @@ def run(prog, rep, tier):
     if len(draws) == 2 and len(loops) < 2 and any(isinstance(x, tuple) and x[:1] == ("comp",) for x in walk(T(summ.ret))):
         # a mode written as a comprehension instead of a loop with append: the loop rules do not read it
         rep.unk("COUNT.loops", fwhere(f), "a sampling mode is written as a comprehension: the per-loop rules (COUNT / CHOICE / POOL) do not read this idiom")
+    elif len(loops) == 1 and len(draws) <= 1:
+        # both modes served by one loop (the pool handled by an object or a helper that knows the mode): the per-mode rules have no loop pair to read
+        rep.unk("COUNT.loops", fwhere(f), "one sampling loop serves both modes: how the pool differs between the modes is not read")
     else:
         rep.check("COUNT.loops", len(loops) == 2 and len(draws) == 2, fwhere(f), "one sampling loop per mode (with / without replacement)",
                   "expected two sampling loops with one draw each, found %d loops / %d draws" % (len(loops), len(draws)))
@@ -234,6 +237,8 @@ def run(prog, rep, tier):
     ret = T(summ.ret)
     if ret[0] == "phi" and ret[1] == REPL and any(x[0] == "comp" for x in ret[2:4]) and all(x[0] in ("after", "comp") for x in ret[2:4]):
         rep.unk("RESULT.list", fwhere(f), "a mode returns a comprehension: not read by the list rules")
+    elif ret[0] == "after" and len(loops) == 1:
+        rep.unk("RESULT.list", fwhere(f), "one list built by one loop for both modes: not read by the per-mode rules")
     else:
         rep.check("RESULT.list", ret[0] == "phi" and ret[1] == REPL and all(x[0] == "after" for x in ret[2:4]), fwhere(f),
                   "returns the list built by the selected mode", "result is %s" % fmt(ret)[:80])
